@@ -2,99 +2,67 @@
 
    Every context method is cut into *atomic actions* at the granularity of one
    source line of xsdata/formats/dataclass/context.py that touches shared state:
-   one dict membership test / read / store / clear, one list append / read, one
-   attribute read / store.  Everything else a method does (building metadata in
-   builders.py, walking the class hierarchy, comparing names) is thread-local and
-   happens "inside" the next action.  Thread programs are interaction trees over
-   these actions (`mscript`), obtained from the call-level scripts of
-   Model/Context.v by `expand`.  A schedule is a list of thread numbers; after the
-   schedule the remaining threads run to completion one after the other.
+   one dict membership test / read / store, one attribute read / store.
+   Everything else a method does (building metadata in builders.py, walking the
+   class hierarchy and filling the *local* index of build_xsi_cache, comparing
+   names, reading a list it was handed) is thread-local and happens "inside" the
+   next action.  Thread programs are interaction trees over these actions
+   (`mscript`), obtained from the call-level scripts of Model/Context.v by `expand`.
+   A schedule is a list of thread numbers; after the schedule the remaining
+   threads run to completion one after the other.
 
-   The xsi index holds *list objects*: find_types returns a reference to the live
-   list, which the caller reads later; the model therefore has a heap of lists.
+   Since /repo commit ece294b build_xsi_cache fills a local dict and publishes it
+   with one assignment; no action of this alphabet mutates a list object of the
+   index in place any more (local_names_match, which does, is outside it), so a
+   reference to such a list is modelled by its content.
    No proofs in this file. *)
 From Coq Require Import String Ascii NArith List Bool.
 From XV Require Import Base.Str Base.Eqb Model.Context.
 Import ListNotations.
 Open Scope N_scope.
 
-Definition loc := nat.
-
 Record sstate := mkS {
-  s_cache : list (cid * meta);     (* XmlContext.cache *)
-  s_xsi : list (str * loc);        (* XmlContext.xsi_cache: qname -> list object *)
-  s_heap : list (list cid);        (* the list objects *)
-  s_seen : N }.                    (* XmlContext.sys_modules *)
+  s_cache : list (cid * meta);            (* XmlContext.cache *)
+  s_xsi : list (str * list cid);          (* XmlContext.xsi_cache *)
+  s_seen : N }.                           (* XmlContext.sys_modules *)
 
-Definition s0 : sstate := mkS [] [] [] 0.
+Definition s0 : sstate := mkS [] [] 0.
 
 Inductive act :=
 | ACacheHas (c : cid)                (* build:           if clazz not in self.cache: *)
 | ACacheSet (c : cid) (m : meta)     (* build:           self.cache[clazz] = builder.build(clazz, parent_ns) *)
 | ACacheGet (c : cid)                (* build:           return self.cache[clazz] *)
 | ASeenRead                          (* build_xsi_cache: if len(sys.modules) == self.sys_modules: *)
-| AXsiClear                          (* build_xsi_cache: self.xsi_cache.clear() *)
-| AXsiAppend (q : str) (c : cid)     (* build_xsi_cache: self.xsi_cache[meta.target_qname].append(clazz) *)
+| AXsiPublish (ix : list (str * list cid))   (* build_xsi_cache: self.xsi_cache = index *)
 | ASeenWrite                         (* build_xsi_cache: self.sys_modules = len(sys.modules) *)
 | AXsiHas (q : str)                  (* find_types:      if qname in self.xsi_cache: *)
 | AXsiRef (q : str)                  (* find_types:      return self.xsi_cache[qname] *)
-| AXsiRefAll (q : str)               (* the same line when the caller is outside the context and reads the list at once *)
-| AListLast (l : option loc)         (* find_type:       return types[-1] if types else None *)
-| AListNth (l : option loc) (i : nat)(* find_subclass:   for tp in types: *)
 | AStoreFail (c : cid).              (* build: the same store line, builder.build raised *)
 
 Inductive aans :=
-| RBool (b : bool) | RMeta (o : option meta) | RNum (n : N) | RLoc (l : loc)
-| RCls (o : option cid) | RClss (l : list cid) | RUnit.
+| RBool (b : bool) | RMeta (o : option meta) | RNum (n : N) | RClss (l : list cid) | RUnit.
 
 Fixpoint cache_set (l : list (cid * meta)) (c : cid) (m : meta) : list (cid * meta) :=
   match l with
   | [] => [(c, m)]
   | (k, v) :: r => if N.eqb k c then (k, m) :: r else (k, v) :: cache_set r c m
   end.
-Fixpoint xsi_get (l : list (str * loc)) (q : str) : option loc :=
-  match l with
-  | [] => None
-  | (k, v) :: r => if str_eqb k q then Some v else xsi_get r q
-  end.
-Fixpoint heap_app (h : list (list cid)) (l : loc) (c : cid) : list (list cid) :=
-  match h, l with
-  | [], _ => []
-  | x :: r, O => (x ++ [c]) :: r
-  | x :: r, S n => x :: heap_app r n c
-  end.
-Definition heap_get (h : list (list cid)) (l : option loc) : list cid :=
-  match l with Some n => nth n h [] | None => [] end.
 
 Definition do_act (w : world) (st : sstate) (a : act) : sstate * aans :=
   match a with
   | ACacheHas c => (st, RBool (match cache_get (s_cache st) c with Some _ => true | None => false end))
-  | ACacheSet c m => (mkS (cache_set (s_cache st) c m) (s_xsi st) (s_heap st) (s_seen st), RUnit)
+  | ACacheSet c m => (mkS (cache_set (s_cache st) c m) (s_xsi st) (s_seen st), RUnit)
   | ACacheGet c => (st, RMeta (cache_get (s_cache st) c))
   | ASeenRead => (st, RNum (s_seen st))
-  | AXsiClear => (mkS (s_cache st) [] (s_heap st) (s_seen st), RUnit)
-  | AXsiAppend q c =>
-      match xsi_get (s_xsi st) q with
-      | Some l => (mkS (s_cache st) (s_xsi st) (heap_app (s_heap st) l c) (s_seen st), RUnit)
-      | None => (mkS (s_cache st) (s_xsi st ++ [(q, List.length (s_heap st))]) (s_heap st ++ [[c]]) (s_seen st), RUnit)
-      end
-  | ASeenWrite => (mkS (s_cache st) (s_xsi st) (s_heap st) (w_modules w), RUnit)
-  | AXsiHas q => (st, RBool (match xsi_get (s_xsi st) q with Some _ => true | None => false end))
+  | AXsiPublish ix => (mkS (s_cache st) ix (s_seen st), RUnit)
+  | ASeenWrite => (mkS (s_cache st) (s_xsi st) (w_modules w), RUnit)
+  | AXsiHas q => (st, RBool (match index_get (s_xsi st) q with Some _ => true | None => false end))
   | AXsiRef q =>
       (* a defaultdict: a missing key is inserted with a new empty list *)
-      match xsi_get (s_xsi st) q with
-      | Some l => (st, RLoc l)
-      | None => (mkS (s_cache st) (s_xsi st ++ [(q, List.length (s_heap st))]) (s_heap st ++ [[]]) (s_seen st),
-                 RLoc (List.length (s_heap st)))
+      match index_get (s_xsi st) q with
+      | Some l => (st, RClss l)
+      | None => (mkS (s_cache st) (s_xsi st ++ [(q, [])]) (s_seen st), RClss [])
       end
-  | AXsiRefAll q =>
-      match xsi_get (s_xsi st) q with
-      | Some l => (st, RClss (heap_get (s_heap st) (Some l)))
-      | None => (mkS (s_cache st) (s_xsi st ++ [(q, List.length (s_heap st))]) (s_heap st ++ [[]]) (s_seen st),
-                 RClss [])
-      end
-  | AListLast l => (st, RCls (last (map Some (heap_get (s_heap st) l)) None))
-  | AListNth l i => (st, RCls (nth_error (heap_get (s_heap st) l) i))
   | AStoreFail _ => (st, RUnit)
   end.
 
@@ -102,9 +70,8 @@ Definition do_act (w : world) (st : sstate) (a : act) : sstate * aans :=
    implementation: harness/c19.py maps the numbers to (function, line text)) *)
 Definition act_label (a : act) : nat :=
   match a with
-  | ACacheHas _ => 1 | ACacheSet _ _ => 2 | ACacheGet _ => 3 | ASeenRead => 4 | AXsiClear => 5
-  | AXsiAppend _ _ => 6 | ASeenWrite => 7 | AXsiHas _ => 8 | AXsiRef _ => 9 | AXsiRefAll _ => 9
-  | AListLast _ => 10 | AListNth _ _ => 11 | AStoreFail _ => 2
+  | ACacheHas _ => 1 | ACacheSet _ _ => 2 | ACacheGet _ => 3 | ASeenRead => 4 | AXsiPublish _ => 5
+  | ASeenWrite => 7 | AXsiHas _ => 8 | AXsiRef _ => 9 | AStoreFail _ => 2
   end%nat.
 
 Inductive mscript :=
@@ -113,7 +80,6 @@ Inductive mscript :=
 
 Definition e_key : str := lit "KeyError".
 Definition e_internal : str := lit "MODEL-TYPE-ERROR".
-Definition e_fuel : str := lit "MODEL-FUEL".
 Definition e_conc_unsupported : str := lit "UNSUPPORTED-CONCURRENT".
 Definition mbad : mscript := MRet (RErr e_internal []).
 
@@ -136,67 +102,31 @@ Definition m_build (w : world) (c : cid) (pns : ostr) (k : option meta -> mscrip
     | _ => mbad
     end).
 
-(* the (qname, class) pairs build_xsi_cache appends, in order *)
-Definition index_pairs (w : world) : list (str * cid) :=
-  flat_map (fun cd => match truthy (target_qname cd) with Some q => [(q, c_id cd)] | None => [] end)
-           (all_subclasses w None).
-
-Fixpoint m_appends (ps : list (str * cid)) (k : mscript) : mscript :=
-  match ps with
-  | [] => k
-  | (q, c) :: r => MAct (AXsiAppend q c) (fun _ => m_appends r k)
-  end.
-
-(* XmlContext.build_xsi_cache *)
+(* XmlContext.build_xsi_cache: the new index is filled locally, then published *)
 Definition m_build_xsi (w : world) (k : mscript) : mscript :=
   MAct ASeenRead (fun a =>
     match a with
     | RNum n =>
         if N.eqb (w_modules w) n then k
-        else MAct AXsiClear (fun _ => m_appends (index_pairs w) (MAct ASeenWrite (fun _ => k)))
+        else MAct (AXsiPublish (ideal_index w)) (fun _ => MAct ASeenWrite (fun _ => k))
     | _ => mbad
     end).
 
-(* XmlContext.find_types: None = the literal [] *)
-Definition m_find_types (w : world) (q : str) (k : option loc -> mscript) : mscript :=
-  if is_datatype_qname q then k None
-  else m_build_xsi w (MAct (AXsiHas q) (fun a =>
-         match a with
-         | RBool true => MAct (AXsiRef q) (fun a' => match a' with RLoc l => k (Some l) | _ => mbad end)
-         | RBool false => k None
-         | _ => mbad
-         end)).
-
-(* find_types called from outside the context: the caller reads the list at once *)
-Definition m_find_types_all (w : world) (q : str) (k : list cid -> mscript) : mscript :=
+(* XmlContext.find_types *)
+Definition m_find_types (w : world) (q : str) (k : list cid -> mscript) : mscript :=
   if is_datatype_qname q then k []
   else m_build_xsi w (MAct (AXsiHas q) (fun a =>
          match a with
-         | RBool true => MAct (AXsiRefAll q) (fun a' => match a' with RClss l => k l | _ => mbad end)
+         | RBool true => MAct (AXsiRef q) (fun a' => match a' with RClss l => k l | _ => mbad end)
          | RBool false => k []
          | _ => mbad
          end)).
 
-(* XmlContext.find_type *)
+(* XmlContext.find_type, find_subclass: they read the list they were handed *)
 Definition m_find_type (w : world) (q : str) (k : option cid -> mscript) : mscript :=
-  m_find_types w q (fun ol => MAct (AListLast ol) (fun a => match a with RCls oc => k oc | _ => mbad end)).
-
-(* XmlContext.find_subclass: the loop reads the live list by index *)
-Fixpoint m_sub_loop (fuel : nat) (w : world) (c : cid) (ol : option loc) (i : nat) (k : option cid -> mscript)
-  : mscript :=
-  match fuel with
-  | O => MRet (RErr e_fuel [])
-  | S f =>
-      MAct (AListNth ol i) (fun a =>
-        match a with
-        | RCls None => k None
-        | RCls (Some tp) => if subclass_candidate w c tp then k (Some tp) else m_sub_loop f w c ol (S i) k
-        | _ => mbad
-        end)
-  end.
-Definition sub_fuel (w : world) : nat := 17 * S (List.length (w_classes w)).
+  m_find_types w q (fun l => k (last (map Some l) None)).
 Definition m_find_subclass (w : world) (c : cid) (q : str) (k : option cid -> mscript) : mscript :=
-  m_find_types w q (fun ol => m_sub_loop (sub_fuel w) w c ol O k).
+  m_find_types w q (fun l => k (find (subclass_candidate w c) l)).
 
 (* XmlContext.fetch *)
 Definition m_fetch (w : world) (c : cid) (pns xt : ostr) (k : option meta -> mscript) : mscript :=
@@ -226,23 +156,50 @@ Fixpoint expand (w : world) (s : script) : mscript :=
       | CBuild c pns => m_build w c pns (fun om => expand w (k (ans_of_ometa om)))
       | CFetch c pns xt => m_fetch w c pns xt (fun om => expand w (k (ans_of_ometa om)))
       | CFindType q => m_find_type w q (fun oc => expand w (k (ACls oc)))
-      | CFindTypes q => m_find_types_all w q (fun l => expand w (k (AClss l)))
+      | CFindTypes q => m_find_types w q (fun l => expand w (k (AClss l)))
       | CFindSubclass c q => m_find_subclass w c q (fun oc => expand w (k (ACls oc)))
       | CRegister _ _ => expand w (k AUnit)          (* the parser's own recorder: write-only (C14) *)
       | _ => MRet (RErr e_conc_unsupported [])
       end
   end.
 
-(* the call-level reference semantics restricted in the same way *)
+(* the call-level reference semantics restricted in the same way, answering lookups
+   from a given index E *)
 Definition supported (c : call) : bool :=
   match c with
   | CBuild _ _ | CFetch _ _ _ | CFindType _ | CFindTypes _ | CFindSubclass _ _ | CRegister _ _ => true
   | _ => false
   end.
-Fixpoint ideal_run_c (w : world) (s : script) : res :=
+Definition ref_lookup (E : list (str * list cid)) (q : str) : list cid :=
+  if is_datatype_qname q then []
+  else match index_get E q with Some l => l | None => [] end.
+Definition ref_fetch (w : world) (E : list (str * list cid)) (c : cid) (pns xt : ostr) : option meta :=
+  match ideal_build w c pns with
+  | None => None
+  | Some m =>
+      match truthy xt with
+      | Some q =>
+          if ostr_eqb (m_tq m) (Some q) then Some m
+          else match find (subclass_candidate w c) (ref_lookup E q) with
+               | Some s => ideal_build w s pns
+               | None => Some m
+               end
+      | None => Some m
+      end
+  end.
+Definition ref_call (w : world) (E : list (str * list cid)) (c : call) : ans :=
+  match c with
+  | CBuild c pns => ans_of_ometa (ideal_build w c pns)
+  | CFetch c pns xt => ans_of_ometa (ref_fetch w E c pns xt)
+  | CFindType q => ACls (last (map Some (ref_lookup E q)) None)
+  | CFindTypes q => AClss (ref_lookup E q)
+  | CFindSubclass c q => ACls (find (subclass_candidate w c) (ref_lookup E q))
+  | _ => AUnit
+  end.
+Fixpoint ref_run (w : world) (E : list (str * list cid)) (s : script) : res :=
   match s with
   | Ret r => r
-  | Call c k => if supported c then ideal_run_c w (k (ideal_call w c)) else RErr e_conc_unsupported []
+  | Call c k => if supported c then ref_run w E (k (ref_call w E c)) else RErr e_conc_unsupported []
   end.
 
 (* ------------------------------------------------------------ running threads *)
@@ -301,29 +258,23 @@ Definition conc_labels (w : world) (st : sstate) (progs : list script) (sched : 
   let '(st1, ts, log) := interleave w st (map (expand w) progs) sched in
   log ++ drain_labels w st1 O ts.
 
-(* ------------------------------------------------------------ warm states, guard *)
-(* the index a state holds, as the call-level model sees it *)
-Definition index_of (st : sstate) : list (str * list cid) :=
-  map (fun e => (fst e, heap_get (s_heap st) (Some (snd e)))) (s_xsi st).
-
-(* the index is current: build_xsi_cache would return at its first line, and the
-   lists the state holds are the ones it would build *)
-Definition index_eqb (a b : list (str * list cid)) : bool :=
-  list_eqb (fun x y : str * list cid => str_eqb (fst x) (fst y) && lcid_eqb (snd x) (snd y)) a b.
-Definition warm_b (w : world) (st : sstate) : bool :=
-  N.eqb (s_seen st) (w_modules w) && index_eqb (index_of st) (ideal_index w).
-
-(* the loop of find_subclass is modelled with fuel; it is enough for every list of the index *)
-Definition index_short (w : world) : bool :=
-  forallb (fun e => Nat.ltb (List.length (snd e)) (sub_fuel w)) (ideal_index w).
+(* ------------------------------------------------------------ reference index, guard *)
+(* the index every lookup of a run answers from: the one the state holds if it
+   counts as current (build_xsi_cache returns at its first line), else the one any
+   thread will build *)
+Definition eff_index (w : world) (st : sstate) : list (str * list cid) :=
+  if N.eqb (s_seen st) (w_modules w) then s_xsi st else ideal_index w.
 
 (* a state in which build_xsi_cache has run for the current world *)
 Definition warm_state (w : world) (cache : list (cid * meta)) : sstate :=
-  let ix := ideal_index w in
-  mkS cache (combine (map fst ix) (seq 0 (List.length ix))) (map snd ix) (w_modules w).
+  mkS cache (ideal_index w) (w_modules w).
+Definition index_eqb (a b : list (str * list cid)) : bool :=
+  list_eqb (fun x y : str * list cid => str_eqb (fst x) (fst y) && lcid_eqb (snd x) (snd y)) a b.
+Definition warm_b (w : world) (st : sstate) : bool :=
+  N.eqb (s_seen st) (w_modules w) && index_eqb (s_xsi st) (ideal_index w).
 
-(* the build requests a script makes when every answer is the ideal one *)
-Definition call_reqs (w : world) (c : call) : list (cid * meta) :=
+(* the build requests a script makes when every answer is the reference one *)
+Definition call_reqs (w : world) (E : list (str * list cid)) (c : call) : list (cid * meta) :=
   let one := fun c p => match ideal_build w c p with Some m => [(c, m)] | None => [] end in
   match c with
   | CBuild c p => one c p
@@ -332,7 +283,7 @@ Definition call_reqs (w : world) (c : call) : list (cid * meta) :=
       match ideal_build w c p, truthy xt with
       | Some m, Some q =>
           if ostr_eqb (m_tq m) (Some q) then []
-          else match find (subclass_candidate w c) (ideal_lookup w q) with
+          else match find (subclass_candidate w c) (ref_lookup E q) with
                | Some s => one s p
                | None => []
                end
@@ -340,17 +291,17 @@ Definition call_reqs (w : world) (c : call) : list (cid * meta) :=
       end
   | _ => []
   end.
-Fixpoint ideal_reqs (w : world) (s : script) : list (cid * meta) :=
+Fixpoint ref_reqs (w : world) (E : list (str * list cid)) (s : script) : list (cid * meta) :=
   match s with
   | Ret _ => []
-  | Call c k => if supported c then call_reqs w c ++ ideal_reqs w (k (ideal_call w c)) else []
+  | Call c k => if supported c then call_reqs w E c ++ ref_reqs w E (k (ref_call w E c)) else []
   end.
 
-(* guard of warm_context_safe: every class is requested (by any thread, or already
+(* guard of context_safe: every class is requested (by any thread, or already
    cached) under parent namespaces that give one and the same metadata, and cached
    classes exist and can be built *)
 Definition cache_known (w : world) (cache : list (cid * meta)) : bool :=
   forallb (fun e => match find_class w (fst e) with Some cd => c_ok cd | None => false end) cache.
-Definition conc_guard (w : world) (cache : list (cid * meta)) (progs : list script) : bool :=
-  world_ok w && cache_known w cache && index_short w
-  && consistent (cache ++ flat_map (ideal_reqs w) progs).
+Definition conc_guard (w : world) (st : sstate) (progs : list script) : bool :=
+  world_ok w && cache_known w (s_cache st)
+  && consistent (s_cache st ++ flat_map (ref_reqs w (eff_index w st)) progs).
